@@ -405,7 +405,7 @@ PROPS = {
     "C19": dict(runs=[HDR_FAM], theorems=T_C19 + T_TABLES, exhaustive_thorough=True),
     "C12": dict(runs=[dict(DEC_ASM, judge=j_c12), dict(DEC_GO, judge=j_c12)], extra=[x_c12],
                 theorems=T_C12 + T("C04go", "c04_go_partial") + T("C03asm", "c04_asm_partial")),
-    "C13": dict(runs=[dict(XXH, judge=j_c13), FW("fwck", judge=j_c09), HDR_FAM,
+    "C13": dict(runs=[dict(XXH, judge=j_c13), FW("fwck", judge=j_c09, env={"VERIF_SCHED": "7"}), HDR_FAM,
                       FR("frck", judge=j_notes(r"EXPECTED-\S+|WRONG-CONTENT|TRUNC-ACCEPTED|NOT-PREFIX", "a wrong header / block / content checksum is not reported as such", "each checksum is verified against XXH32 of the bytes the format designates"))],
                 extra=[x_c13_4g],
                 theorems=T("C13", "oneshot", "stream", "stream_reset") + T("C19", "c19_accept_iff", "c19_spec") + T("C09", "c09_writer")),
